@@ -84,11 +84,14 @@ extern "C" void h_dectree_save() {
   t->save(*verif_ostream(0));
   t->save(*verif_ostream(1));                                   // C08: a second save of the same object
   verif_assert(verif_stream_equal(0, 1, VS_BOUND), 2);
+#ifdef DT_LOAD
   DecodingTree *r = DecodingTree::load(*verif_istream(0));
   verif_assert(r != 0 && verif_stream_consumed(0) == verif_stream_written(0) && !verif_stream_failed(0), 3);
   verif_assert(r->getLastSymbol() == s[NLEAVES - 1] + 1, 4);
   r->save(*verif_ostream(2));                                   // C08: re-saving a loaded object reproduces the image
   verif_assert(verif_stream_equal(0, 2, VS_BOUND), 5);
-  delete t; delete r;
+  delete r;
+#endif
+  delete t;
   verif_witness();
 }
